@@ -534,6 +534,11 @@ def generate(  # noqa: PLR0912, PLR0913, PLR0914, PLR0915
     if enable_version_header:
         header += f"\n#   version:   {get_version()}"
 
+    for _, (body, filename) in modules.items():
+        # an encoding error must surface before any output file is opened (and truncated)
+        (custom_file_header or header.format(filename)).encode(encoding)
+        (body or "").encode(encoding)
+
     file: IO[Any] | None
     for path, (body, filename) in modules.items():
         if path is None:
